@@ -64,6 +64,7 @@ pub fn c09_metric_name_regex_3chars() {
     vcover!(want && s.n == 3, "c09.metric: valid 3-char name");
     vcover!(!want && s.n == 3 && s.chars[2] as u32 > 0x7f, "c09.metric: non-ASCII third char");
     assert!(is_valid_metric_name(s.as_str()) == want, "C09 metric name accepted iff it matches [a-zA-Z_:][a-zA-Z0-9_:]*");
+    vcover!(true, "end of harness reached");
 }
 /// `is_valid_label_name` == the label-name regex, for every string of <= 3 Unicode scalars.
 #[cfg_attr(kani, kani::proof, kani::unwind(6))]
@@ -73,6 +74,7 @@ pub fn c09_label_name_regex_3chars() {
     vcover!(want && s.n == 3, "c09.label: valid 3-char name");
     vcover!(!want && s.n >= 1 && s.chars[0] == ':', "c09.label: leading colon rejected");
     assert!(is_valid_label_name(s.as_str()) == want, "C09 label name accepted iff it matches [a-zA-Z_][a-zA-Z0-9_]*");
+    vcover!(true, "end of harness reached");
 }
 
 /// `Desc::new` applies the checks: symbolic 2-char metric name and variable label, help empty or not.
@@ -92,6 +94,7 @@ pub fn c09_desc_new_checks_names() {
     vcover!(want, "c09.desc: accepted");
     assert!(r.is_ok() == want, "C09 Desc::new accepts exactly valid names with non-empty help");
     std::mem::forget(r);
+    vcover!(true, "end of harness reached");
 }
 
 /// Label-name pool: aa bb cc le 9x a- (all 2 bytes, so every `String` has a concrete length;
@@ -140,6 +143,7 @@ pub fn c09_desc_new_rejects_duplicate_label_names() {
     vcover!(valid && !dup, "c09.dup: three distinct names accepted");
     assert!(r.is_ok() == (valid && !dup), "C09 a label name occurring twice among const and variable labels is rejected");
     std::mem::forget(r);
+    vcover!(true, "end of harness reached");
 }
 
 /// Two const labels + one variable label.
@@ -156,6 +160,7 @@ pub fn c09_desc_new_two_const_one_variable() {
     vcover!(valid && dup, "c09.dup2: variable label repeats a const label");
     assert!(r.is_ok() == (valid && !dup), "C09 a label name occurring twice among const and variable labels is rejected");
     std::mem::forget(r);
+    vcover!(true, "end of harness reached");
 }
 
 /// Three variable labels (names symbolic from the valid part of the pool): a repetition
@@ -177,6 +182,7 @@ pub fn c09_desc_new_three_variable_labels() {
     vcover!(!dup, "c09.dup3: three distinct names");
     assert!(r.is_ok() == !dup, "C09 a label name occurring twice among const and variable labels is rejected");
     std::mem::forget(r);
+    vcover!(true, "end of harness reached");
 }
 
 fn lit_desc(const_name: &str, var_name: &str) -> Result<Desc> {
@@ -203,6 +209,7 @@ fn le_case(expect_ok: bool) {
     kani::stub(<crate::histogram::HistogramOpts as crate::desc::Describer>::describe, describe_le_var))]
 pub fn c09_histogram_rejects_le_variable() {
     le_case(false);
+    vcover!(true, "end of harness reached");
 }
 /// Histograms reject `le` as a const label.
 #[cfg_attr(kani, kani::proof, kani::unwind(6),
@@ -211,6 +218,7 @@ pub fn c09_histogram_rejects_le_variable() {
     kani::stub(<crate::histogram::HistogramOpts as crate::desc::Describer>::describe, describe_le_const))]
 pub fn c09_histogram_rejects_le_const() {
     le_case(false);
+    vcover!(true, "end of harness reached");
 }
 /// ... and accept other label names.
 #[cfg_attr(kani, kani::proof, kani::unwind(6),
@@ -219,6 +227,7 @@ pub fn c09_histogram_rejects_le_const() {
     kani::stub(<crate::histogram::HistogramOpts as crate::desc::Describer>::describe, describe_no_le))]
 pub fn c09_histogram_accepts_other_labels() {
     le_case(true);
+    vcover!(true, "end of harness reached");
 }
 
 pub fn dispatch(name: &str) -> Option<fn()> {
